@@ -604,8 +604,10 @@ class Built(object):
                 ex = UserError('injected in body of ' + d['name'])
                 ev['raised'] = ex
                 raise ex
-            if built.consume('body_raise_unencodable'):
-                # an ordinary service exception that carries a live resource the serializer cannot handle
+            if built.consume('body_raise_unencodable') or (ident is not None and ('unenc', ident) in built._sticky_raise):
+                # an ordinary service exception that carries a live resource the serializer cannot handle (sticky like the above)
+                if ident is not None:
+                    built._sticky_raise.add(('unenc', ident))
                 ex = UserError('injected in body of ' + d['name'])
                 ex.resource = Unencodable()
                 ev['raised'] = ex
